@@ -67,4 +67,11 @@ MinImage(G, k, N, R) ==
   IN CHOOSE v \in cands : NormSq(G, v) = best
 
 DistSq(G, p, q, N, R) == MinImageSq(G, VSub(p, q), N, R)
+(* a cell that is periodic only along the axes with pbc[i] = TRUE (slab, wire): images are taken along those axes only; along the  *)
+(* others the plain difference of the coordinates (both inside the cell) counts                                                 *)
+DistSqPbc(G, p, q, N, R, pbc) ==
+  LET k == VSub(p, q)
+      X(i) == IF pbc[i] THEN {CenterK(k[i], N) + N * a : a \in (0 - R)..R} ELSE {k[i]}
+      qs == {NormSq(G, <<x, y, z>>) : x \in X(1), y \in X(2), z \in X(3)}
+  IN CHOOSE m \in qs : \A o \in qs : m <= o
 =============================================================================
